@@ -443,6 +443,31 @@ Proof.
     + rewrite C01_Proofs.str_eqb_refl in Ev. discriminate.
     + destruct (C01_Model.index_of m r); [discriminate|]. exact (IH Hin eq_refl).
 Qed.
+Lemma post_chain_app_l : forall l1 l2 x i,
+  postproc (QChain (l1 ++ l2)) x i =
+  rbind (postproc (QChain l1) x i) (fun xi => postproc (QChain l2) (fst xi) (snd xi)).
+Proof.
+  intros. rewrite !postproc_chain, qchain_app. destruct (qchain_run l1 x i) as [[x' i']| |]; cbn [rbind fst snd];
+    [rewrite postproc_chain|..]; reflexivity.
+Qed.
+
+Lemma post_on_mark_l : forall k v l x i,
+  postproc (QOnMark k v l) x i =
+  match mark_get k (i_marks i) with
+  | Some m => if nlist_eqb m v then postproc (QChain l) x i else ROk (x, i)
+  | None => ROk (x, i)
+  end.
+Proof. intros. rewrite postproc_on_mark, postproc_chain. reflexivity. Qed.
+
+Lemma post_som_panics_l : forall k vs l x i,
+  (mark_get k (i_marks i) = None -> postproc (QSwitchOnMark k vs l) x i = RPanic 8) /\
+  (forall m, mark_get k (i_marks i) = Some m -> C01_Model.index_of m vs = None ->
+             postproc (QSwitchOnMark k vs l) x i = RPanic 9).
+Proof.
+  intros k vs l x i. rewrite postproc_switch_on_mark. split.
+  - intros ->. reflexivity.
+  - intros m -> ->. reflexivity.
+Qed.
 End QStructure.
 
 (** * what the modelled postprocessing can do to an item: nothing but cut its sequences *)
